@@ -63,7 +63,7 @@ func sxgVerifyInst(c *core.Ctx, label string) *inst {
 	}
 	chain := gen.ChainBytes(l.Leaf, []byte("ocsp-"+l.Leaf.Name))
 	tm := time.Unix(l.Date+c.I64(label+".t", 0, l.Expires-l.Date), 0)
-	in := &inst{name: label + ":ReadExchange+Verify", props: []string{"C01"}}
+	in := &inst{name: label + ":ReadExchange+Verify", props: []string{"C01", "C09"}}
 	in.run = func(w io.Writer) error {
 		e, err := signedexchange.ReadExchange(bytes.NewReader(file))
 		if err != nil {
@@ -395,6 +395,7 @@ func init() {
 		func(c *core.Ctx) *inst { return bsigVerifyInst(c, "rbsigv", true) },
 	}
 	readerMakers["C06"] = c06
+	readerMakers["C09"] = readerMakers["C01"] // the verifier's verdict, under schedules
 	// C10 (no panic, bounded): every reader instance
 	var all []func(c *core.Ctx) *inst
 	for _, p := range []string{"C01", "C05", "C15", "C17"} {
